@@ -20,7 +20,8 @@ func init() {
 		Thorough: sim.Budget{Runs: 25000, WallS: 840},
 		LevelText: "seeded search over (t,n) with 1<=t<=n<=8 (thorough: n<=12): n parties, each a real bls.DKG with a seeded polynomial, exchange their shares over a simulated network with loss, duplication, reordering and byzantine corruption " +
 			"(scalar +-1, bit flips, misaddressed shares, wrong claimed sender, corrupted copies of the published Mpk); receivers run the shipped ValidateShare/AddSecretShare, then AggregateSecretKeyShares/AggregatePublicKeyShares (run again on the same DKG object after duplicate/retransmitted shares and at seeded points between signing rounds: a retried view-change wait step), Sign, VerifySignature, RecoverGroupSig/CalBlsGpSign over seeded t-subsets and orders, " +
-			"ShareOrSigns.Validate; plus client keys: GenerateThresholdKeyShares + reconstruction, GenerateSplitKeys + AggregateSignatures. A clean batch is evidence, not proof",
+			"ShareOrSigns.Validate; conflicting shares (share of an abandoned earlier polynomial, shifted scalar, undecodable string) redelivered with force=false for an already stored sender, during the exchange and after aggregation: must be refused and leave the stored shares, later aggregates and signature shares unchanged; " +
+			"plus client keys: GenerateThresholdKeyShares + reconstruction (also with empty/malformed share strings offered to the same reconstruction object at any position: refused offers must not matter), GenerateSplitKeys + AggregateSignatures. A clean batch is evidence, not proof",
 		LevelNote: "input-class property (crypto half of C34) hosted in the simulation: the simulator contributes the message schedule and the network/byzantine faults; the on-chain contribute/share/wait half belongs to C38's world and is not exercised here. " +
 			"Dropped shares are retransmitted honestly before aggregation (qualified set = all n parties), so exclusion of parties from the qualified set is not explored",
 		Technique: "deterministic simulation: multi-party DKG over a simulated lossy/byzantine network with seeded polynomials (bls.SetRandFunc); oracle from the algebraic statement, computed with the shipped primitives",
@@ -28,7 +29,7 @@ func init() {
 		Components: sim.Components{
 			Real: []string{"chaincore/threshold/bls (MakeDKG, ComputeDKGKeyShare, GetDKGKeyShare, ValidateShare, AddSecretShare, AggregateSecretKeyShares, AggregatePublicKeyShares, Sign, VerifySignature, RecoverGroupSig, CalBlsGpSign, ComputeIDdkg)",
 				"chaincore/block (ShareOrSigns.Validate, Mpks)", "core/encryption (GenerateThresholdKeyShares, BLS0ChainReconstruction, GenerateSplitKeys, AggregateSignatures)", "herumi bls"},
-			Sim:  []string{"parties' protocol driver", "network (loss, duplicates, order, corruption)", "retransmission of dropped shares"},
+			Sim:  []string{"parties' protocol driver", "network (loss, duplicates, order, corruption, conflicting/malformed redeliveries)", "retransmission of dropped shares"},
 			Stub: []string{},
 		},
 		Assumptions: []string{
@@ -74,6 +75,9 @@ func genC34(seed uint64, tier string) *sim.Plan {
 				if tam.Intn(5) == 0 {
 					fault = 3 + tam.Intn(5) // scalar+1, bit flip, misaddressed, wrong sender, scalar-1
 				}
+				if tam.Intn(14) == 0 {
+					fault = 8 // a conflicting share for a sender whose share may already be stored (force=false)
+				}
 			}
 			st := sim.Step{Op: "share", A: i, I: []int64{int64(j), int64(fault), int64(tam.Intn(1 << 16))}}
 			shares = append(shares, st)
@@ -110,9 +114,17 @@ func genC34(seed uint64, tier string) *sim.Plan {
 	for i, k := 0, r.Range(1, 3); i < k; i++ {
 		rest = append(rest, sim.Step{Op: "sos", A: r.Intn(12), I: []int64{int64(tam.Intn(3)), int64(tam.Intn(1 << 16))}})
 	}
+	for i, k := 0, r.Pick([]int{3, 3, 2, 1}); i < k; i++ {
+		// after the DKG: a conflicting share for an already stored sender is redelivered to party A with force=false
+		// I: sender, kind (stale polynomial / shifted scalar / undecodable), arg, what the party does next
+		// (0-2: aggregates again as in "reaggregate", 3: nothing), message selector
+		rest = append(rest, sim.Step{Op: "conflict", A: r.Intn(12), I: []int64{int64(r.Intn(12)), int64(tam.Intn(3)), int64(tam.Intn(1 << 16)), int64(r.Intn(4)), int64(r.Intn(1000))}})
+	}
 	for i, k := 0, r.Range(1, 3); i < k; i++ {
 		tn := r.Range(1, 9)
-		rest = append(rest, sim.Step{Op: "threshold", I: []int64{int64(r.Range(1, tn)), int64(tn), int64(r.Intn(1 << 30)), int64(r.Intn(1000)), int64(r.Intn(2)), int64(tam.Pick([]int{5, 1}))}})
+		// I[6]: malformed share string offered to the reconstruction (0: none), I[7]: who offers it / where / how
+		rest = append(rest, sim.Step{Op: "threshold", I: []int64{int64(r.Range(1, tn)), int64(tn), int64(r.Intn(1 << 30)), int64(r.Intn(1000)), int64(r.Intn(2)), int64(tam.Pick([]int{5, 1})),
+			int64(tam.Pick([]int{3, 1, 1, 1, 1, 1})), int64(tam.Intn(1 << 16))}})
 	}
 	for i, k := 0, r.Range(1, 3); i < k; i++ {
 		rest = append(rest, sim.Step{Op: "split", I: []int64{int64(r.Range(1, 6)), int64(r.Intn(1 << 30)), int64(r.Intn(1000)), int64(tam.Pick([]int{5, 1}))}})
@@ -130,6 +142,7 @@ type c34Party struct {
 	view map[int][]bls.PublicKey // corrupted copies of other parties' Mpk it currently holds
 	got  map[int]bool            // valid share of party k stored
 	redo bool                    // saw a duplicate or retransmitted share: will aggregate again
+	old  *bls.DKG                // the party's polynomial of an abandoned earlier attempt (made on demand)
 }
 
 func execC34(env *sim.Env, p *sim.Plan) *sim.Result {
@@ -242,6 +255,69 @@ func execC34(env *sim.Env, p *sim.Plan) *sim.Result {
 			return sh.GetHexString()
 		}
 		return ks.Share
+	}
+	storedShares := func(i int) string {
+		xs := ps[i].dkg.GetSecretKeyShares()
+		sort.Strings(xs)
+		return fmt.Sprint(xs)
+	}
+	// conflict: a share that differs from the one party `to` has already stored for party `from` is offered with
+	// force=false.  kind 0: the share party `from` dealt in an abandoned earlier attempt (it validates against the Mpk
+	// published in that attempt, so the shipped receive path hands it to AddSecretShare); kind 1: the stored share
+	// shifted by a scalar (what a restart reads back from a damaged DKG summary); kind 2: an undecodable string.
+	// The offer must be refused and must leave what the party holds untouched.  Reports whether an offer was made.
+	conflict := func(from, to, kind int, arg int64) bool {
+		if !ps[to].got[from] {
+			return false
+		}
+		hs := honestShare(from, to)
+		var offer, what string
+		switch kind {
+		case 0:
+			what = "stale-polynomial"
+			if ps[from].old == nil {
+				ps[from].old = bls.MakeDKG(t, n, ps[from].id)
+			}
+			od := ps[from].old
+			sh, err := od.ComputeDKGKeyShare(ps[to].pid)
+			if err != nil {
+				viol("dkg", "compute-share-error", err.Error())
+				return false
+			}
+			if !ps[to].dkg.ValidateShare(od.GetMPKs(), sh) {
+				viol("share-validation", "honest-share-rejected", fmt.Sprintf("share of party %d's earlier polynomial for party %d does not validate against the Mpk published with it (t=%d n=%d)", from, to, t, n))
+			}
+			offer = sh.GetHexString()
+		case 1:
+			what = "scalar-shift"
+			var sh, d bls.Key
+			_ = sh.SetHexString(hs)
+			_ = d.SetDecString(fmt.Sprint(1 + arg%1000))
+			sh.Add(&d)
+			offer = sh.GetHexString()
+		default:
+			what = "undecodable"
+			offer = []string{"", "zz", hs + "g", "-", " "}[int(arg)%5]
+		}
+		if offer == hs {
+			tr.Outcome("skip/no-effect")
+			return false
+		}
+		before := storedShares(to)
+		err := ps[to].dkg.AddSecretShare(ps[from].pid, offer, false)
+		tr.Fault("conflicting_share_" + what)
+		tr.Event("conflicting share %d->%d %s refused=%v stored-unchanged=%v", from, to, what, err != nil, before == storedShares(to))
+		tr.Outcome(fmt.Sprintf("conflict/%s/%v", what, err != nil))
+		changed := before != storedShares(to)
+		switch {
+		case err == nil && kind == 2 && !changed:
+			tr.Probe("undecodable-share-decoded-to-stored-value") // e.g. another spelling of the same scalar
+		case err == nil:
+			viol("dkg", "conflicting-share-accepted/"+what, fmt.Sprintf("AddSecretShare(force=false) accepted a share (%s) for party %d although party %d already holds a different share of that party (t=%d n=%d)", what, from, to, t, n))
+		case changed:
+			viol("dkg", "refused-share-changed-state/"+what, fmt.Sprintf("AddSecretShare(force=false) refused a conflicting share (%s) of party %d at party %d, but the shares party %d holds changed (t=%d n=%d)", what, from, to, to, t, n))
+		}
+		return true
 	}
 	finished := false
 	var gpk bls.PublicKey
@@ -423,6 +499,19 @@ func execC34(env *sim.Env, p *sim.Plan) *sim.Result {
 				}
 				// a genuine share of party from, presented as coming from party o
 				deliver(from, to, o, hs, false, "wrong-sender")
+			case 8:
+				// conflicting redelivery: only meaningful once the original is stored; before that it is just a
+				// corrupted share and goes through validation like the others
+				if conflict(from, to, int(arg)%3, arg/3) {
+					ps[to].redo = true
+					continue
+				}
+				tr.Fault("corrupt_scalar")
+				var sh, d bls.Key
+				_ = sh.SetHexString(hs)
+				_ = d.SetDecString(fmt.Sprint(1 + (arg/3)%1000))
+				sh.Add(&d)
+				deliver(from, to, from, sh.GetHexString(), false, "scalar-shift")
 			default:
 				deliver(from, to, from, hs, true, "honest")
 			}
@@ -460,6 +549,27 @@ func execC34(env *sim.Env, p *sim.Plan) *sim.Result {
 				tr.Fault("late_duplicate")
 			}
 			reaggregate(i, int(st.Int(0, 0))%3, "explicit step")
+		case "conflict":
+			complete()
+			to, from := st.A%n, int(st.Int(0, 0))%n
+			msg := msgOf(st.Int(4, 0))
+			sigBefore := ps[to].dkg.Sign(msg).GetHexString()
+			if !conflict(from, to, int(st.Int(1, 0))%3, st.Int(2, 0)) {
+				continue
+			}
+			if next := int(st.Int(3, 0)); next >= 0 && next < 3 {
+				reaggregate(to, next, "after a refused conflicting share")
+			}
+			// the party's aggregate is what it was: same signature share, still valid under the key derived for it
+			sg := ps[to].dkg.Sign(msg)
+			if sg.GetHexString() != sigBefore {
+				viol("key-consistency", "aggregate-changed-after-refused-share", fmt.Sprintf("party %d signs differently after a conflicting share of party %d was refused (t=%d n=%d)", to, from, t, n))
+			}
+			for _, v := range verifiers {
+				if !ps[v].dkg.VerifySignature(sg, msg, ps[to].pid) {
+					viol("share-signature", "honest-sigshare-rejected", fmt.Sprintf("signature share of party %d does not verify under the public key party %d derived for it, after a conflicting share of party %d was refused (t=%d n=%d)", to, v, from, t, n))
+				}
+			}
 		case "sign":
 			complete()
 			msg := msgOf(st.Int(0, 0))
@@ -696,7 +806,51 @@ func execC34(env *sim.Env, p *sim.Plan) *sim.Result {
 			perm := sim.NewRNG(uint64(st.Int(2, 0))).Perm(tn)[:size]
 			rec := encryption.GetReconstructSignatureScheme(encryption.SignatureSchemeBls0chain, tt, tn)
 			corrupt := st.Int(5, 0) == 1 && tt > 1
+			// a malformed / empty share string is offered to the same reconstruction object before the k-th valid
+			// share (k == size: after the last one).  A refused offer must not matter: the valid shares still
+			// reconstruct.  An offer that is not refused becomes part of the share set (like a corrupted share).
+			mal, marg := int(st.Int(6, 0)), int(st.Int(7, 0))
+			malAt, refused, polluted := -1, 0, false
+			if mal != 0 {
+				malAt = marg % (size + 1)
+			}
+			offerMalformed := func() {
+				who := shares[(marg/16)%tn]
+				good, err := who.Sign(hash)
+				if err != nil || len(good) < 8 {
+					return
+				}
+				var s, what string
+				switch mal {
+				case 1:
+					s, what = "", "empty"
+				case 2:
+					s, what = "not-a-signature-share", "non-hex"
+				case 3:
+					s, what = good[:len(good)/2&^1], "truncated"
+				case 4:
+					s, what = good[:len(good)-1], "odd-length"
+				default:
+					s, what = alterChar(good, marg/256), "altered"
+				}
+				if s == good {
+					return
+				}
+				err = rec.Add(who, s)
+				tr.Fault("threshold_malformed_share_" + what)
+				tr.Event("threshold malformed share (%s) before valid share %d of %d refused=%v", what, malAt, size, err != nil)
+				tr.Outcome(fmt.Sprintf("threshold-malformed/%s/%v", what, err != nil))
+				if err != nil {
+					refused++
+				} else {
+					polluted = true
+					tr.Probe("malformed-share-not-refused")
+				}
+			}
 			for k, i := range perm {
+				if k == malAt {
+					offerMalformed()
+				}
 				h := hash
 				if corrupt && k == 0 {
 					h = msgOf(st.Int(3, 0) + 1)
@@ -715,21 +869,32 @@ func execC34(env *sim.Env, p *sim.Plan) *sim.Result {
 					viol("client-threshold", "add-error", err.Error())
 				}
 			}
+			if malAt == size {
+				offerMalformed()
+			}
+			after := ""
+			if refused > 0 {
+				after = "/after-refused-share"
+			}
 			sg, err := rec.Reconstruct()
 			if err != nil {
-				viol("client-threshold", "reconstruct-error", err.Error())
+				if !polluted {
+					viol("client-threshold", "reconstruct-error"+after, fmt.Sprintf("%v (t=%d n=%d, %d valid shares, %d malformed offers refused)", err, tt, tn, size, refused))
+				}
+				tr.Event("threshold t=%d n=%d subset=%d corrupt=%v polluted=%v reconstruct error", tt, tn, size, corrupt, polluted)
 				continue
 			}
 			ok, _ := orig.Verify(sg, hash)
 			direct, _ := orig.Sign(hash)
-			tr.Event("threshold t=%d n=%d subset=%d corrupt=%v verifies=%v equals-direct=%v", tt, tn, size, corrupt, ok, sg == direct)
-			tr.Outcome(fmt.Sprintf("threshold/%v/%v", corrupt, ok))
+			tr.Event("threshold t=%d n=%d subset=%d corrupt=%v refused=%d polluted=%v verifies=%v equals-direct=%v", tt, tn, size, corrupt, refused, polluted, ok, sg == direct)
+			tr.Outcome(fmt.Sprintf("threshold/%v/%v", corrupt || polluted, ok))
+			tainted := corrupt || polluted
 			switch {
-			case !corrupt && !ok:
-				viol("client-threshold", "reconstructed-invalid", fmt.Sprintf("signature reconstructed from %d of %d threshold shares (t=%d, order %v) does not verify under the original key", size, tn, tt, perm))
-			case !corrupt && sg != direct:
-				viol("client-threshold", "reconstructed-differs", "reconstructed signature differs from the original key's own signature")
-			case corrupt && ok:
+			case !tainted && !ok:
+				viol("client-threshold", "reconstructed-invalid"+after, fmt.Sprintf("signature reconstructed from %d of %d threshold shares (t=%d, order %v, %d malformed offers refused) does not verify under the original key", size, tn, tt, perm, refused))
+			case !tainted && sg != direct:
+				viol("client-threshold", "reconstructed-differs"+after, "reconstructed signature differs from the original key's own signature")
+			case corrupt && !polluted && ok:
 				viol("client-threshold", "corrupt-reconstructs-valid", "a share set containing a signature over another message reconstructed a valid signature")
 			}
 		case "split":
